@@ -794,6 +794,53 @@ func init() {
 			lc := liabCfg{uint64(rng.Intn(40)), uint64(rng.Intn(40))}
 			liabTrial(lc, flagMasks[rng.Intn(4)], flagMasks[rng.Intn(4)], rng.Intn(7), int64(rng.Intn(5)-2))
 		}
+		// ---- counterparty links between REGISTERED entries of different precision and different permissions:
+		// the token sent names another registered denom as its ibc_counterparty_denom (and / or base denom,
+		// unit denom aside); the export gate must be decided by the SENT denom's own entry.  Both directions.
+		linkTrial := func(sent, other string, sentMask, otherMask int, sentDec, otherDec int64, back bool, amount int64) {
+			tctx, _ := base.CacheContext()
+			entries := good(sent, other)
+			se := entryOf(sent, sentMask, "")
+			se.Decimals = sentDec
+			se.IbcCounterpartyDenom = other
+			oe := entryOf(other, otherMask, "")
+			oe.Decimals = otherDec
+			if back {
+				oe.IbcCounterpartyDenom = sent
+			}
+			if rng.Chance(1, 3) {
+				se.BaseDenom = other
+			}
+			entries = append(entries, se, oe)
+			if rng.Chance(1, 2) {
+				entries[0], entries[len(entries)-1] = entries[len(entries)-1], entries[0]
+			}
+			out.Emit("reset", "ok", "reset", false)
+			pe.edit(tctx, out, "", "set", nil, "", entries)
+			pe.run(tctx, permMsg{kind: "transfer", route: fmt.Sprintf("link.d%d.d%d", sentDec, otherDec), token: sent, amount: amount}, out)
+			if rng.Chance(1, 3) { // then revoke / grant the export permission on the sent denom alone and send again
+				se2 := cloneEntry(se)
+				se2.Permissions = permsOfMask(sentMask ^ 2)
+				pe.edit(tctx, out, "link.", "register", se2, "", nil)
+				pe.run(tctx, permMsg{kind: "transfer", route: "link.after", token: sent, amount: amount}, out)
+			}
+		}
+		decs := []int64{0, 6, 10, 18, 20}
+		for _, pair := range [][2]string{{"rowan", tokX}, {tokA, tokX}, {tokX, tokA}, {tokA, "rowan"}} {
+			for _, sm := range []int{1, 1 | 2, 1 | 4, 0} {
+				for _, om := range []int{2, 1 | 2 | 4, 1, 0} {
+					for _, sd := range []int64{18, 10} {
+						for _, od := range decs {
+							linkTrial(pair[0], pair[1], sm, om, sd, od, od%4 == 2, 1000)
+						}
+					}
+				}
+			}
+		}
+		for t := 0; t < n/6; t++ {
+			pair := [][2]string{{"rowan", tokX}, {tokA, tokX}, {tokX, tokA}, {tokA, "rowan"}, {tokC, tokB}}[rng.Intn(5)]
+			linkTrial(pair[0], pair[1], rng.Intn(32), rng.Intn(32), decs[rng.Intn(5)], decs[rng.Intn(5)], rng.Bool(), []int64{1, 1000, 1000000000000}[rng.Intn(3)])
+		}
 		// ---- transaction histories (baseapp runMsgs discipline): a chain whose committed state evolves;
 		// every transaction runs ALL its messages on ONE branch, stops at the first failing message
 		// and is written back only if all succeeded and it is not a simulation.  Several transactions
